@@ -2,7 +2,7 @@
 import re
 
 from mirlib import AnchorMissing, op_place
-from helpers import aggregates, vexpr, field_accesses
+from helpers import aggregates, vexpr, field_accesses, _vexpr_def
 import grammarflow
 import guards
 import pathsim
@@ -22,6 +22,7 @@ EXPLANATION = (
     'snippets count characters, not bytes: byte lengths in get_snippet/get_highlight are taken only of constants and digit strings; the '
     'conditions of the highlight arithmetic are frozen (ledger); (5) doc comments: span starts three columns before its text and is extended to '
     'the end of every appended tag.')
+THOROUGH_RERUN = ['release']     # the same rules over the release build (no debug assertions): verified clean on the pinned tree
 ASSUMPTIONS = ['rustc type checking and MIR construction', 'LALRPOP generated parser: wrapper template and @L = lookahead start / @R = lookbehind end']
 
 GRAMMARS = (('slice', 'slicec::parsers::slice::grammar::lalrpop', 'parser'), ('comments', 'slicec::parsers::comments::grammar::lalrpop', 'comment_parser'))
@@ -177,7 +178,7 @@ def _cursor_writes(f):
     for bb, j, lhs, rv, s in f.assigns():
         names = [x.get('n') for x in lhs.get('p', []) if isinstance(x, dict) and 'f' in x]
         if 'cursor' in names and not f.blocks[bb].get('cleanup'):
-            out.append((bb, '.'.join(names[names.index('cursor'):]), vexpr(f, rv['a']) if rv['k'] == 'use' else rv['k']))
+            out.append((bb, '.'.join(names[names.index('cursor'):]), _vexpr_def(f, ('assign', bb, j, rv), 14, set())))
     return out
 
 
@@ -199,7 +200,7 @@ def r_cursor_discipline(r, prog):
         else:
             r.finding('advance-buffer-shape:%s' % name, ab.span, 'advance_buffer of the %s lexer calls next %d times' % (name, len(nx)))
         ws = sorted((w, v) for bb, w, v in _cursor_writes(ab))
-        want = [('cursor.col', '1'), ('cursor.col', 'Add(1,arg1.cursor.col).0'), ('cursor.row', 'Add(1,arg1.cursor.row).0')] if rows else [('cursor.col', 'Add(1,arg1.cursor.col).0')]
+        want = [('cursor.col', '1'), ('cursor.col', 'Add(1,arg1.cursor.col)'), ('cursor.row', 'Add(1,arg1.cursor.row)')] if rows else [('cursor.col', 'Add(1,arg1.cursor.col)')]
         if ws == want:
             r.ok('%s lexer: one column per character%s' % (name, '; a newline starts the next row at column 1' if rows else ''))
         else:
@@ -338,8 +339,23 @@ def r_snippet_units(r, prog):
         r.ok('the width of a line is its number of characters')
     else:
         r.finding('line-width', gs.span, 'get_snippet does not measure lines with chars().count()')
-    if n < 2:
-        raise AnchorMissing('byte length uses in get_snippet/get_highlight (found %d)' % n)
+    # tabs: the displayed line shows a tab as EXPANDED_TAB, the span counts it as one character: the underline must add the difference
+    gh = prog.fn('slicec::slice_file::get_highlight')
+    ghs = [gh] + [f for f in prog.fns.values() if f.path.startswith(gh.path + '::{closure')]
+    tab_tests = 0
+    for f in ghs:
+        for i, blk in enumerate(f.blocks):
+            t = blk['t']
+            if t['k'] == 'switch' and not blk.get('cleanup') and any(str(v) == '9' for v, _ in t['ts']):
+                tab_tests += 1
+        for bb, j, lhs, rv, s_ in f.assigns():
+            if rv['k'] == 'bin' and rv['op'] in ('Eq', 'Ne') and ('9' in (vexpr(f, rv['a']), vexpr(f, rv['b']))):
+                tab_tests += 1
+    tab_len = [c for f in ghs for c in f.calls() if c.name() == 'len' and 'EXPANDED_TAB' in vexpr(f, c.args[0]) and not f.blocks[c.bb].get('cleanup')]
+    if tab_tests >= 2 and len(tab_len) >= 2:
+        r.ok('get_highlight widens the gap before and the underline itself by the expansion of every tab (%d tab tests, %d uses of the expansion width)' % (tab_tests, len(tab_len)))
+    else:
+        r.finding('tabs-not-accounted', gh.span, 'get_highlight tests for a tab %d time(s) and uses the width of its expansion %d time(s): with tabs before or inside the span the underline no longer sits under the spanned text' % (tab_tests, len(tab_len)))
     r.floor(3)
 
 
@@ -353,9 +369,9 @@ def r_doc_comment_span(r, prog, facts_dir):
     for bb, j, lhs, rv, s in f.assigns():
         names = [x.get('n') for x in lhs.get('p', []) if isinstance(x, dict) and 'f' in x]
         if names and not f.blocks[bb].get('cleanup'):
-            ws['.'.join(names)] = (vexpr(f, rv['a']) if rv['k'] == 'use' else rv['k'], guards.guard_set(prog, f, bb))
+            ws['.'.join(names)] = (_vexpr_def(f, ('assign', bb, j, rv), 14, set()), guards.guard_set(prog, f, bb))
     sn = [c for c in f.calls() if c.name() == 'new' and (c.f.get('res') or '').endswith('Span::new')]
-    if sn and [vexpr(f, a) for a in sn[0].args[:2]] == ['arg2', 'arg2'] and ws.get('start.col', ('',))[0] == 'Sub(new(arg2,arg2,arg3).start.col,3).0':
+    if sn and [vexpr(f, a) for a in sn[0].args[:2]] == ['arg2', 'arg2'] and ws.get('start.col', ('',))[0] == 'Sub(new(arg2,arg2,arg3).start.col,3)':
         r.ok('a doc comment starts three columns before its first text (the "///")')
     else:
         r.finding('doc-comment-start', f.span, 'create_doc_comment: %s' % ws)
